@@ -380,6 +380,7 @@ def small_alphabet(kind):
                     ops += [("coll", side, h, "add", m), ("coll", side, h, "discard", m)]
                 else:
                     ops += [("coll", side, h, "setitem", m)]
+            ops += [("coll", side, h, "delattr")]  # `del holder.collection` (>= 2 members after two adds)
             if fam == "list":
                 ops += [("coll", side, h, "pop", -1), ("coll", side, h, "replace", []),
                         ("coll", side, h, "replace", [0]), ("coll", side, h, "replace", [1, 0])]
@@ -516,7 +517,8 @@ def check_sides(env, w, trail, where):
     if w.dup_seen:
         mech = "o2m-list-duplicate-members-backref"
     elif w.library_error and where == "memory":
-        mech = "%s-%s-raises-invalidrequest" % (w.kind.replace("_", "-"), opname(last))
+        mech = "%s-%s-raises-%s" % (w.kind.replace("_", "-"), opname(last),
+                                    "invalidrequest" if w.library_error == "invalidrequesterror" else w.library_error)
     else:
         mech = "%s-%s-sides-disagree" % (w.kind.replace("_", "-"), opname(last) if last else "initial")
         if where != "memory":
@@ -613,13 +615,13 @@ def run_sequence(env, kind, ops, allow_dups=False, nc=3, verbose=False):
                 ctx.count("failed_ops")
                 if verbose:
                     print("   raised", type(e).__name__, e)
-            except sa_exc.InvalidRequestError as e:
+            except (sa_exc.InvalidRequestError, RuntimeError) as e:
                 # not an outcome a plain collection could produce; the state is judged
                 # below like after any other failed operation
                 ctx.count("failed_ops")
                 ctx.count("library_errors")
                 ctx.seen("library_errors", "%s:%s" % (kind, str(e)[:60]))
-                w.library_error = True
+                w.library_error = type(e).__name__.lower()
             ps = check_sides(env, w, trail, "memory")
             w.library_error = False
             if verbose:
@@ -676,6 +678,19 @@ def run(ctx):
     # ---- targeted: move two children to another parent, then swap them by item
     # assignment, all in one flush.  Which of the two parents the unit of work processes
     # first depends on object addresses, so the scenario is repeated with fresh objects.
+    # ---- targeted: `del holder.collection` with 2 and 3 members, every collection kind,
+    # both sides of many-to-many, followed by flush + reload
+    for kind in C37_KINDS:
+        if kind == "o2o" or not ctx.mine(C37_KINDS.index(kind)):
+            continue
+        sides = ["P", "C"] if kind.startswith("m2m") else ["P"]
+        for side in sides:
+            for members in ([0, 1], [0, 1, 2] if side == "P" else [1, 0]):
+                if fam_of(kind) == "dict":
+                    members = [m for m in members if m != 2]  # c0 and c2 share a key
+                run_sequence(env, kind, [("coll", side, 0, "replace", members), ("coll", side, 0, "delattr"), PERSIST])
+                run_sequence(env, kind, [("coll", side, 1, "replace", members), ("coll", side, 0, "replace", members[:1]),
+                                         ("coll", side, 1, "delattr"), ("coll", side, 0, "delattr"), PERSIST])
     for rep in range(ctx.pick({"quick": 8, "thorough": 40})):
         run_sequence(env, "o2m_list", [("coll", "P", 1, "replace", [0, 1, 2]), PERSIST, ("setpar", 2, 0),
                                        ("coll", "P", 0, "append", 0), ("coll", "P", 0, "swap", 1, 0)])
